@@ -17,7 +17,7 @@ import vlib, ninja_driver
 from vlib import log
 
 MC = {"quick": ("MC_C18_quick.cfg", 600), "thorough": ("MC_C18_thorough.cfg", 2400)}
-N_RANDOM = {"quick": 420, "thorough": 9000}
+N_RANDOM = {"quick": 300, "thorough": 2500}
 BATCH = 30
 MODULE, CFG = "NinjaBuildTrace.tla", "NinjaBuildTrace.cfg"
 
@@ -32,6 +32,24 @@ def model_check(tier):
     p["wall"] = time.time() - t0; p["out"] = out; p["rc"] = rc; p["cfg"] = cfg
     p["actions"] = vlib.coverage_actions(out)
     return p
+
+def vacuity(tier):
+    """every witness predicate W_x of NinjaBuildMC.tla (an action / situation the properties depend on) must be
+    reachable: one short TLC run per witness, each must report W_x violated"""
+    import re
+    base = [l for l in open(vlib.SPEC + "/MC_C18_vacuity.cfg").read().split("\n") if not l.startswith("INVARIANT")]
+    ws = re.findall(r"^(W_\w+)\s*==", open(vlib.SPEC + "/NinjaBuildMC.tla").read(), re.M)
+    def one(w):
+        cfg = os.path.join(vlib.SPEC, ".vac_%s_%d.cfg" % (w, os.getpid()))
+        open(cfg, "w").write("\n".join(base) + "\nINVARIANT %s\n" % w)
+        try:
+            rc, out = vlib.tlc("NinjaBuildMC.tla", os.path.basename(cfg), workers=2, timeout=1800, heap="-Xmx4g")
+        finally:
+            os.unlink(cfg)
+        p = vlib.parse_tlc(out)
+        if p["error"]: raise vlib.Infra("vacuity run %s failed: %s" % (w, p["error"]))
+        return w, p["violated"] == w
+    return dict(vlib.parallel(one, ws, n=8))
 
 def nontrivial(lines):
     """incremental machinery exercised: in some build after the first, a command ran while another command
@@ -51,7 +69,7 @@ def signature(case):
     c = copy.deepcopy(case); c.pop("id", None)
     return json.dumps(c, sort_keys=True)
 
-def run_cases(cases, llbuild, wd, reference=True):
+def run_cases(cases, llbuild, wd, reference=2):
     def one(c):
         try:
             return ninja_driver.run_case(c, llbuild, wd, reference=reference)
@@ -131,6 +149,12 @@ def run(pid, tier, seed):
                     "non-trivial = in some build after the first a command ran while a command that ran earlier did not",
                samples=[dict(kind="implementation trace (first events of the first scenario)", events=[s[:400] for s in sample])])
     if mc_["actions"]: cov["tlc_action_coverage"] = {k: v[0] for k, v in mc_["actions"].items()}
+    if tier == "thorough":
+        vac = vacuity(tier)
+        cov["vacuity_witnesses_reached"] = sorted(w for w, ok in vac.items() if ok)
+        cov["vacuity_witnesses_unreached"] = sorted(w for w, ok in vac.items() if not ok)
+        log("[%s] vacuity: %d/%d witnesses reached%s" % (pid, sum(vac.values()), len(vac),
+            "" if all(vac.values()) else " UNREACHED: %s" % cov["vacuity_witnesses_unreached"]))
     return dict(level="model_checking", coverage=cov, violations=violations,
                 assumptions=["generated commands are deterministic functions of their command line and of the files they read (tools/ninja_driver.py run.sh)",
                              "edits are observable: every write gets a strictly larger mtime (logical clock); back-dated edits and edits that keep size+mtime are outside the property",
